@@ -685,11 +685,19 @@ def build_and_run(workdir, required, driver, optional=None):
     del drv_name
     # one translation unit in dependency order: two compiler processes per build instead of one per file
     blob = '\n'.join(f'! ---- file {flat[f][0]}\n{texts[f]}' for f in order) + '\n! ---- driver\n' + driver
-    try:
-        exe = diffexec.build(workdir, [('all_units.F90', blob)], fflags=FAST_FLAGS)
-    except diffexec.BuildError as e:
-        return {'status': 'build_fail', 'out': '', 'detail': _explain(str(e), blob), 'pulled': pulled}
-    r = diffexec.run(exe, timeout=30)
+    workdir = Path(workdir)
+    workdir.mkdir(parents=True, exist_ok=True)
+    (workdir / 'all_units.F90').write_text(blob)
+    # compile and link in one compiler invocation (process start-up dominates on a loaded machine)
+    rc, _, err = diffexec._run(['gfortran'] + FAST_FLAGS + ['all_units.F90', '-o', 'a.out'], workdir, 180)   # pylint: disable=protected-access
+    if rc == -999:
+        return {'status': 'timeout', 'out': '', 'detail': 'compiler timed out', 'pulled': pulled}
+    if rc != 0:
+        return {'status': 'build_fail', 'out': '', 'detail': _explain(err[-1500:], blob), 'pulled': pulled}
+    exe = workdir / 'a.out'
+    r = diffexec.run(exe, timeout=60)
+    if r['rc'] == -999:
+        return {'status': 'timeout', 'out': '', 'detail': 'program timed out', 'pulled': pulled}
     if r['rc'] != 0 or r['san']:
         return {'status': 'run_fail', 'out': r['out'], 'detail': f"rc={r['rc']} {r['san'][:2]} {r['err'][-300:]}",
                 'pulled': pulled}
@@ -707,6 +715,9 @@ def behaviour_edit(P, processed, spec):
     Valid when duplicated and removed kernels are distinct and a removed kernel is not below a duplicated one.
     """
     Q = copy.deepcopy(P)
+
+    def mname(c):
+        return getattr(c, 'mname', c.local)
     for name, opts in spec:
         if name == 'dup':
             ks = {k.lower() for k in opts['duplicate_kernels']}
@@ -715,14 +726,16 @@ def behaviour_edit(P, processed, spec):
                     new = []
                     for c in p.calls:
                         new.append(c)
-                        if c.kind == 'sub' and c.local in ks:
-                            new.append(copy.copy(c))
+                        if c.kind == 'sub' and mname(c) in ks:
+                            d = copy.copy(c)
+                            d.mname = mname(c) + opts['duplicate_suffix']   # the copy is called under the new name
+                            new.append(d)
                     p.calls = new
         elif name == 'rem':
             ks = {k.lower() for k in opts['remove_kernels']}
             for p in Q.procs:
                 if p.qname in processed:
-                    p.calls = [c for c in p.calls if not (c.kind == 'sub' and c.local in ks)]
+                    p.calls = [c for c in p.calls if not (c.kind == 'sub' and mname(c) in ks)]
     return Q
 
 
@@ -884,9 +897,9 @@ def gen_sequence(rng, P, exp, meta, allow=(), maxlen=4):
     cands0 = kernel_candidates(P, exp, meta)
     n = rng.choice([1, 2, 2, 3, 3, 4][:max(1, maxlen + 2)])
     kinds = [rng.choice(['dup', 'dup', 'rem', 'wrap', 'dep', 'dep', 'dep']) for _ in range(n)]
-    # at most one wrap, one rem, two dep, two dup
+    # at most one wrap, one rem, one dep (two in the gated slice: the second pass renames the driver's calls again), two dup
     seen = {}
-    kinds = [k for k in kinds if seen.setdefault(k, 0) < {'wrap': 1, 'rem': 1, 'dep': 2, 'dup': 2}[k]
+    kinds = [k for k in kinds if seen.setdefault(k, 0) < {'wrap': 1, 'rem': 1, 'dep': 2 if 'dep_twice' in allow else 1, 'dup': 2}[k]
              and not seen.__setitem__(k, seen[k] + 1)]
     if 'rem' in kinds and ('dep' in kinds or 'wrap' in kinds) and 'rem_then_rename' not in allow:
         drop = 'rem' if rng.random() < 0.5 else 'rename'
@@ -930,7 +943,7 @@ def gen_sequence(rng, P, exp, meta, allow=(), maxlen=4):
                 used_suffix.add(suffix)
                 traits |= tr
                 opts = {'duplicate_kernels': [model.procs[n_]['local']], 'duplicate_suffix': suffix,
-                        'duplicate_module_suffix': rng.choice([None, '_dmod']), 'duplicate_subgraph': sub}
+                        'duplicate_module_suffix': rng.choice([None, suffix + 'm']), 'duplicate_subgraph': sub}
                 info['dup'].append(n_)
                 spec.append(('dup', opts))
                 model.apply('dup', opts)
@@ -957,6 +970,12 @@ def gen_sequence(rng, P, exp, meta, allow=(), maxlen=4):
                 spec.append(('rem', opts))
                 model.apply('rem', opts)
         elif kind == 'wrap':
+            if 'dep' not in later:
+                # documented use: ModuleWrapTransformation is followed by DependencyTransformation (which also drops
+                # the inactive procedures that still call the wrapped routines as externals)
+                if 'wrap_without_dep' not in allow:
+                    continue
+                traits.add('wrap_without_dep')
             opts = {'module_suffix': '_mod'}
             spec.append(('wrap', opts))
             model.apply('wrap', opts)
@@ -966,4 +985,6 @@ def gen_sequence(rng, P, exp, meta, allow=(), maxlen=4):
             model.apply('dep', opts)
     if info['rem'] and any(n in ('dep', 'wrap') for n, _ in spec):
         traits.add('rem_then_rename')
+    if sum(1 for n, _ in spec if n == 'dep') > 1:
+        traits.add('dep_twice')
     return spec, model, info
